@@ -41,7 +41,8 @@ LENIENT = [0, 1, 2, 3]     # indices of the flags whose switching ON is a lenien
 def required_cells(tier):
     cells = ['law:reflexive', 'law:exact', 'law:monotone:ELLIPSIS', 'law:monotone:NORMALIZE_WHITESPACE',
              'law:monotone:IGNORE_WHITESPACE', 'law:monotone:NORMALIZE_REPR', 'law:monotone:ACCEPT_BLANKLINE',
-             'law:nonblank', 'ref:match', 'ref:nomatch', 'e2e:match', 'e2e:nomatch', 'ellipsis-structured']
+             'law:nonblank', 'ref:match', 'ref:nomatch', 'e2e:match', 'e2e:nomatch', 'ellipsis-structured',
+             'rewrite:many-wildcards']
     cells += ['ref:flags:%s' % ''.join(map(str, b)) for b in ALLBITS]
     return cells
 
@@ -272,7 +273,30 @@ def rewrite(rng, t):
     return t, op
 
 
+def many_wildcards_pair(rng):
+    """a long got (a table, a log) and a want that replaces 5..16 stretches of it by '...'"""
+    words = [rng.choice(WORDS) + str(rng.randint(0, 99)) for _ in range(rng.randint(18, 40))]
+    seps = [rng.choice([' ', ' ', '\n', ', ']) for _ in words]
+    got = ''.join(w + s_ for w, s_ in zip(words, seps)).rstrip()
+    k = rng.randint(5, 16)
+    idx = sorted(rng.sample(range(len(words)), min(k, len(words))))
+    wparts = []
+    for j, (w, s_) in enumerate(zip(words, seps)):
+        wparts.append(('...' if j in idx else w) + s_)
+    want = ''.join(wparts).rstrip()
+    ops = ['many-wildcards']
+    if rng.random() < 0.4:
+        # one literal word changed: must not match any more (unique numbers make an accidental match unlikely; the
+        # reference decides either way)
+        j = rng.choice([x for x in range(len(words)) if x not in idx] or [0])
+        want = want.replace(words[j], 'QQ' + words[j], 1)
+        ops.append('edited')
+    return got, want, ops
+
+
 def random_pair(rng):
+    if rng.random() < 0.06:
+        return many_wildcards_pair(rng)
     a = random_text(rng)
     b = a
     ops = []
